@@ -216,7 +216,7 @@ impl Monitor for C02 {
         // the process's first v2 parses, from twelve threads at the same instant: every result is
         // judged against the table oracle like any other
         let rot = spec::engine::cold_rot();
-        let nthreads = if rot % 3 == 2 { 1 } else { 12 };
+        let nthreads = if spec::engine::small() { 2 } else if rot % 3 == 2 { 1 } else { 12 };
         let mut inputs: Vec<Vec<u8>> = (0..24u64)
             .map(|i| {
                 let (vc, fp) = valid_ctl(i);
@@ -251,7 +251,7 @@ impl Monitor for C02 {
         for x in &inputs {
             judge(x, rec, hash_bytes(x));
         }
-        rec.class("cold-start|12 threads released together", || "24 headers each".to_string());
+        rec.class("cold-start|threads released together", || "32 headers each".to_string());
     }
     fn floor(&self, tier: Tier) -> Vec<&'static str> {
         if tier == Tier::Miri {
